@@ -11,8 +11,11 @@
           waiterGetsDone c | waiterGetsCtx c | waiterSend c | waiterFree c
           callTakeRes c decodeFails | callLinkCtx c | callRecover c e | callReturnOk c
           respFrame p callId frameId hasErr | pubLookup p | pubCtx p | pubSendClosed p
-          closureInvoke q id | setErrEnter t e | setErrStore t | setErrClose t | watcher t
+          closureInvoke q id | closureBodyDone q | setErrEnter t e | setErrStore t | setErrClose t | watcher t
           linkCheck | linkWake | linkReturn | ctxCancel x | ctxPropagate g | cancelLink
+        `closureInvoke q id` is CallClosure's look-up (hit / miss); on a hit thread q is then inside
+        the closure's body until `closureBodyDone q` (optional: traces that never report the end of
+        a body replay as before — on a tree with `clInvokeOutsideLock` a running body disables nothing)
     ep cancel x               → ctxCancel x followed by the propagation to every entry whose
                                 parent is x (package context does that before `cancel` returns)
     ep state                  → one canonical line (see `summary`)
@@ -57,6 +60,7 @@ def parseAct (ws : List String) : Option Ep.Act :=
     | "pubCtx", some [p] => some (.pubCtx p)
     | "pubSendClosed", some [p] => some (.pubSendClosed p)
     | "closureInvoke", some [q, id] => some (.closureInvoke q id)
+    | "closureBodyDone", some [q] => some (.closureBodyDone q)
     | "setErrEnter", some [t, e] => some (.setErrEnter t e)
     | "setErrStore", some [t] => some (.setErrStore t)
     | "setErrClose", some [t] => some (.setErrClose t)
@@ -112,7 +116,9 @@ def linkName : Ep.LinkPc → String
 
 /-- canonical one-line summary: closed flag, live table keys, registered closures, slot,
     fatalLog, Link pc, per call pc/outcome, per waiter pc, setter threads, non-empty `res` buffers
-    (length), closure lookups (oldest first), link ctx, crash flag -/
+    (length), closure lookups (oldest first), link ctx, crash flag, holder of the closure table's
+    mutex, running closure bodies (thread:closure id; invoking threads above the window are taken
+    from the look-up log) -/
 def summary (s : Ep.State) : String :=
   let idx := List.range window
   let keys := idx.filter fun k => (s.bc.table k).isSome
@@ -130,10 +136,14 @@ def summary (s : Ep.State) : String :=
     | .absent => none
     | p => some s!"{t}:{setterName p}"
   let invs := s.invokes.reverse.map fun i => s!"{i.thread}:{i.id}:{if i.hit then "hit" else "miss"}"
+  let runs := (idx ++ (s.invokes.reverse.map (·.thread)).filter (fun q => decide (window ≤ q))).eraseDups.filterMap fun q =>
+    match s.running q with
+    | some id => some s!"{q}:{id}"
+    | none => none
   let ress := idx.filterMap fun c => if (s.res c).isEmpty then none else some s!"{c}:{(s.res c).length}"
   s!"state closed={s.bc.closed} keys={keys} closures={cls} slot={optNat s.slot} fatalLog={s.fatalLog} " ++
   s!"link={linkName s.link} calls={calls} waiters={waiters} setters={setters} " ++
-  s!"res={ress} invokes={invs} linkCtxDone={s.linkCtxDone} crashed={s.crashed}"
+  s!"res={ress} invokes={invs} linkCtxDone={s.linkCtxDone} crashed={s.crashed} clLock={optNat s.clLock} running={runs}"
 
 /-- one driver line (the words after `ep`): new state (none = unchanged), answer, whether the
     line was a rejected action (the trace does not fit the model) -/
